@@ -107,6 +107,9 @@ inductive SAct
   | waitWorker (acquired : Bool)
   | cancelCtx
   | markDispatched (f : Fault) (hookFault : Option Err)
+  /-- D21's trigger: `MarkAsDispatched` reached the CORE repository below the observable wrapper, took effect there (if
+  the core accepts it) and was then reported as failed; the wrapper returns that error WITHOUT calling its timer hook -/
+  | markDispatchedCore
   | getById (f : Fault)
   deriving Repr, Inhabited
 
@@ -222,6 +225,14 @@ def sched (w : World) (a : SAct) : World × Resp :=
       match e with
       | some e => (w.finishDE (.dispatchErr t e), .err (some e))
       | none => ({ w with pc := .d_get t }, .err none)
+  | .d_mark t _, .markDispatchedCore =>
+    if w.ctxDone then (w.finishDE (.dispatchErr t .ctx), .err (some .ctx))
+    else
+      -- the core applies the transition; the timer hook is NOT told; the caller sees an error
+      let (r, out) := Repo.step {} w.obs.repo now (.dispatch t.id)
+      let w := { w with obs := { w.obs with repo := r } }
+      let e : Err := match out with | .err e => e | _ => .other
+      (w.finishDE (.dispatchErr t e), .err (some e))
   | .d_get t, .getById f =>
     if f != .none then (w.finishDE (.dispatchErr t .other), .err (some .other))
     else if w.ctxDone then (w.finishDE (.dispatchErr t .ctx), .err (some .ctx))
